@@ -441,7 +441,7 @@ func c03Dequeue(a *Anchors, r *core.Report) {
 // c03QueueDiscipline: O3
 func c03QueueDiscipline(a *Anchors, r *core.Report) {
 	rule := "C03.O3 queue-discipline"
-	r.Floor(rule, 18)
+	r.Floor(rule, 23)
 	// every use of the addresses &q.head, &q.tail, &item.next in package lib
 	type use struct {
 		f     *ssa.Function
@@ -534,6 +534,118 @@ func c03QueueDiscipline(a *Anchors, r *core.Report) {
 			r.Bad(rule, key, fn, a.P.Pos(u.pos), inst, bad)
 		} else {
 			r.OK(rule, key, fn, a.P.Pos(u.pos), inst, "allowed")
+		}
+	}
+	// in Pop: the consumer advances by exactly one node and returns that node's value
+	for _, f := range funcsOfPkgs(a.P, "lib") {
+		if f.Name() != "Pop" || f.Signature.Recv() == nil || !strings.Contains(f.Signature.Recv().Type().String(), "MPSC") {
+			continue
+		}
+		fn := fname(f)
+		key := "C03.O3|" + fn + "|advance"
+		inst := "Pop moves tail to tail.next (one node, once per call) and returns the value of that node"
+		// nextOfTail: v is (a conversion of) a load of tail.next where tail is loaded from the receiver
+		nextOfTail := func(v ssa.Value) bool {
+			v = strip(v)
+			var addr ssa.Value
+			switch x := v.(type) {
+			case *ssa.Call:
+				if !isAtomic(x.Common(), "LoadPointer") {
+					return false
+				}
+				addr = strip(x.Common().Args[0])
+			case *ssa.UnOp:
+				if x.Op != token.MUL {
+					return false
+				}
+				addr = x.X
+			default:
+				return false
+			}
+			fa, ok := addr.(*ssa.FieldAddr)
+			if !ok {
+				return false
+			}
+			if _, fl := fieldOwner(fa); fl != "next" {
+				return false
+			}
+			ld, ok := fa.X.(*ssa.UnOp)
+			if !ok || ld.Op != token.MUL {
+				if c, okc := fa.X.(*ssa.Call); okc && isAtomic(c.Common(), "LoadPointer") {
+					if fa2, ok2 := strip(c.Common().Args[0]).(*ssa.FieldAddr); ok2 {
+						_, fl := fieldOwner(fa2)
+						_, isRecv := fa2.X.(*ssa.Parameter)
+						return fl == "tail" && isRecv
+					}
+				}
+				return false
+			}
+			fa2, ok := ld.X.(*ssa.FieldAddr)
+			if !ok {
+				return false
+			}
+			_, fl := fieldOwner(fa2)
+			_, isRecv := fa2.X.(*ssa.Parameter)
+			return fl == "tail" && isRecv
+		}
+		var stores []*ssa.Call
+		eachInstr(f, func(in ssa.Instruction) {
+			c, ok := in.(*ssa.Call)
+			if !ok || !isAtomic(c.Common(), "StorePointer") {
+				return
+			}
+			if fa, ok := strip(c.Common().Args[0]).(*ssa.FieldAddr); ok {
+				if _, fl := fieldOwner(fa); fl == "tail" {
+					stores = append(stores, c)
+				}
+			}
+		})
+		var probs []string
+		if len(stores) == 0 {
+			probs = append(probs, "tail is never advanced")
+		}
+		for _, st := range stores {
+			if !nextOfTail(st.Common().Args[1]) {
+				probs = append(probs, "the value stored to tail at "+a.P.Pos(st.Pos())+" is not the node loaded from tail.next")
+			}
+			isOther := func(in ssa.Instruction) bool {
+				for _, o := range stores {
+					if in == ssa.Instruction(o) {
+						return true
+					}
+				}
+				return false
+			}
+			if hit := reaches([]Point{{st.Block(), indexIn(st) + 1}}, nil, isOther); hit != nil {
+				probs = append(probs, "tail is advanced a second time at "+a.P.Pos(hit.Pos())+" in the same call: a queued item is skipped")
+			}
+		}
+		// the value returned with ok=true is the value field of the node tail advances to
+		eachInstr(f, func(in ssa.Instruction) {
+			ret, ok := in.(*ssa.Return)
+			if !ok || len(ret.Results) != 2 {
+				return
+			}
+			if b, okb := constBool(ret.Results[1]); !okb || !b {
+				return
+			}
+			ld, ok := unspill(ret.Results[0]).(*ssa.UnOp)
+			good := false
+			if ok && ld.Op == token.MUL {
+				if fa, okf := ld.X.(*ssa.FieldAddr); okf {
+					if _, fl := fieldOwner(fa); fl == "value" && nextOfTail(fa.X) {
+						good = true
+					}
+				}
+			}
+			if !good {
+				probs = append(probs, "the value returned at "+a.P.Pos(ret.Pos())+" is not the value of the node tail advances to")
+			}
+		})
+		if len(probs) > 0 {
+			r.Bad(rule, key, fn, a.P.Pos(f.Pos()), inst, strings.Join(probs, "; "))
+		} else {
+			r.OK(rule, key, fn, a.P.Pos(f.Pos()), inst, fmt.Sprintf("%d tail store(s), each of tail.next, none followed by another", len(stores)))
 		}
 	}
 	// in Push: the next-link store targets the old head obtained by the swap, and stores the new item
